@@ -27,7 +27,7 @@ type Universe struct {
 	// LightLastUpdated: ContractStorageLastUpdatedBlock only for two addresses x two slots (every call of
 	// the legacy backend copies the whole memory database: long chains only)
 	LightLastUpdated bool
-	HashNum     map[felt.Felt]uint64
+	HashNum          map[felt.Felt]uint64
 }
 
 func NewUniverse(g *lib.ChainGen) *Universe {
